@@ -113,6 +113,8 @@ def obligations(tier):
     obls.append(CH("observable_instances_rechecked", H, "observable_instances", t, mode="E1s", functions=["stix2.properties.ObservableProperty.clean", "stix2.base._Observable._check_ref"],
                    bounds="2.0 observed-data built from observable INSTANCES taken out of another container (7 selections: valid reuse, missing keys, keys now naming another type) x constructor / new_version / dictionary form; "
                           "accepted output is checked by an independent reference resolver"))
+    obls.append(CH("object_references_in_local_scope", H, "local_scope", t, mode="E1s", functions=["stix2.base._Observable._check_property", "stix2.base._Observable._check_ref"],
+                   bounds="7 reference sites of 2.0 observables (3 on the member itself, 4 inside extensions / embedded objects) x 6 targets (each kind of member present, a key that is absent): accepted containers resolve every reference to an allowed type"))
     for p in range(8):
         obls.append(CH("corruption_then_valid_p%d" % p, H, "corrupt_then_valid", t * 2, mode="E1s", functions=FE[:2] + ["stix2.parsing.parse"], stubs=[MODEL],
                        env={"VERIF_PART": str(p)}, bounds="(class, slot/nested site) cases with index %% 8 == %d x %d junk values + deletion, strict mode" % (p, __import__("props.h_C17", fromlist=["NJ"]).NJ)))
